@@ -77,6 +77,36 @@ def inventory_rules(chk: Check, ctx: Any, rule_inv: str, rule_shadow: str, rule_
                            f"class attribute {c.owner.split('.')[-1]}.{c.name} is a mutable default that is modified through instances "
                            f"(`{norm(n0)[:70]}` in {f0.short}) and never re-bound per instance in __init__: all instances (all compilations, all "
                            "threads) share one object", "re-bound per instance in __init__", node=c.node)
+    # mutable default parameter values: one object for all calls
+    from ..engine.state import is_mutable_value
+    n_def = 0
+    for f in ctx.repo.all_funcs():
+        a = f.node.args
+        pos = a.posonlyargs + a.args
+        pairs = list(zip(pos[len(pos) - len(a.defaults):], a.defaults)) + [(k, d) for k, d in zip(a.kwonlyargs, a.kw_defaults) if d is not None]
+        for arg, d in pairs:
+            if not is_mutable_value(d):
+                continue
+            n_def += 1
+            name = arg.arg
+            muts = [n for n in walk_no_nested(f.node) if isinstance(n, ast.Call) and isinstance(n.func, ast.Attribute) and n.func.attr in astq.MUTATORS
+                    and isinstance(n.func.value, ast.Name) and n.func.value.id == name]
+            muts += [n for n in walk_no_nested(f.node) if isinstance(n, (ast.Assign, ast.AugAssign, ast.Delete)) and any(
+                isinstance(t, ast.Subscript) and isinstance(t.value, ast.Name) and t.value.id == name
+                for t in (n.targets if isinstance(n, (ast.Assign, ast.Delete)) else [n.target]))]
+            passed = [n for n in walk_no_nested(f.node) if isinstance(n, ast.Call) and any(isinstance(x, ast.Name) and x.id == name
+                                                                                        for x in list(n.args) + [k.value for k in n.keywords])]
+            rebound = any(isinstance(n, ast.Assign) and any(isinstance(t, ast.Name) and t.id == name for t in n.targets) for n in walk_no_nested(f.node))
+            key = f"default:{f.short}:{name}"
+            if (muts or passed) and not rebound:
+                site = (muts or passed)[0]
+                chk.violation(rule_inv, key, f,
+                              f"parameter {name} of {f.short} defaults to a mutable {type(d).__name__.lower()} that the function "
+                              f"{'modifies' if muts else 'hands on'} (`{norm(site)[:60]}`): the default object is created once per process, so what one call adds to it "
+                              "is seen by every later call that relies on the default", node=site)
+            else:
+                chk.hold(rule_inv, key, f, "mutable default is never modified or handed on", node=d)
+    chk.extra["mutable_default_parameters"] = n_def
     for where, call, at_runtime in process_global_calls(ctx.repo):
         key = f"process-global:{norm(call)}"
         if at_runtime:
